@@ -1,5 +1,6 @@
 (* The PROVED domain Dp of C04 and the closed form both sides are shown equal to.
-   Dp: every member is a directory, a regular file below the size limit or a plain whiteout, given by
+   Dp: every member is a directory, a regular file below the size limit, a plain whiteout or a symbolic
+   link whose target stays inside the root (an entry like a file: links are not followed here), given by
    an already clean relative name; per layer: different paths, every parent directory has its own
    entry earlier in the layer, nothing below a whiteout target or file of the same layer; across
    layers: a path that a layer deletes or turns into a file while older layers have something
@@ -17,7 +18,12 @@ Definition e_plan (e : entry) : cpath * bool := entry_vpath e (clean_str (e_name
 Definition e_vsegs (e : entry) : list seg := snd (fst (e_plan e)).
 Definition e_whf (e : entry) : bool := snd (e_plan e).
 Definition e_vp (e : entry) : str := slash :: render (fst (e_plan e)).
-Definition is_reg (e : entry) : bool := match e_kind e with KReg => true | _ => false end.
+(* a non-directory member: regular file, whiteout marker or symbolic link (hides what is beneath its path) *)
+Definition is_reg (e : entry) : bool := match e_kind e with KReg | KSym => true | _ => false end.
+Definition is_link (e : entry) : bool := match e_kind e with KSym => true | _ => false end.
+Definition e_tgt (e : entry) : str :=
+  if is_abs (e_target e) then render_abs (clean_segs true (split_slash (e_target e)))
+  else render_abs (clean_segs true (init_segs (e_vsegs e) ++ split_slash (e_target e))).
 Definition is_dirk (e : entry) : bool := match e_kind e with KDir => true | _ => false end.
 
 (* the node handleDir / handleFile create for layer i *)
@@ -25,6 +31,8 @@ Definition e_node (i : nat) (e : entry) : fnode :=
   match e_kind e with
   | KDir => {| fn_origin := i; fn_vpath := e_vp e; fn_target := []; fn_wh := e_whf e;
                fn_mode := Z.lor (header_file_mode (e_mode e)) mode_dir; fn_size := 0 |}
+  | KSym => {| fn_origin := i; fn_vpath := e_vp e; fn_target := e_tgt e; fn_wh := e_whf e;
+               fn_mode := Z.lor (e_mode e) mode_symlink; fn_size := 0 |}
   | _ => {| fn_origin := i; fn_vpath := e_vp e; fn_target := []; fn_wh := e_whf e;
             fn_mode := header_file_mode (e_mode e); fn_size := Z.of_nat (length (e_content e)) |}
   end.
@@ -39,7 +47,7 @@ Definition spec_member_ok (maxb : Z) (e : entry) : bool :=
   | Some (MEntry p s) =>
       negb (e_whf e) && segs_eqb p (e_vsegs e) &&
       opt_vent_eqb (vent_of_node (e_node 0 e)) (Some (vent_of_sentry p s)) &&
-      match se_kind s, e_kind e with SKDir, KDir | SKReg, KReg => true | _, _ => false end
+      match se_kind s, e_kind e with SKDir, KDir | SKReg, KReg | SKSym, KSym => true | _, _ => false end
   | _ => false
   end.
 
@@ -55,6 +63,7 @@ Definition entry_ok (cfg : config) (e : entry) : bool :=
   match e_kind e with
   | KDir => negb (e_whf e)
   | KReg => Z.of_nat (length (e_content e)) <? cfg_max_bytes cfg
+  | KSym => negb (e_whf e) && negb (str_eqb (e_target e) []) && negb (target_outside_root (e_vsegs e) (e_target e))
   | _ => false
   end &&
   spec_member_ok (cfg_max_bytes cfg) e &&
@@ -109,6 +118,9 @@ Definition prune_safe_p (cfg : config) (im : image) : bool :=
                                       | _ :: _ :: _ :: _ => match s_children fin (removelast (e_vsegs e)) with [] => false | _ => true end
                                       | _ => true
                                       end) (slot_es s)) (all_slots im).
+
+(* the theorems about the final pruning are proved for images without links *)
+Definition no_links_p (im : image) : bool := forallb (fun s => forallb (fun e => negb (is_link e)) (slot_es s)) (all_slots im).
 
 (* ------------------------------------------------------------------ the closed form *)
 Inductive sres3 := RFound (j : nat) (e : entry) | RHidden | RNone.
